@@ -243,7 +243,36 @@ pub fn execute(p: &Program, prefix: &[usize], horizon: usize, on_decision: Optio
     }
     if ex.unjoined == 0 && matches!(ex.outcome, Outcome::Completed) {
         // quiescent observations
-        if p.cfg.persistent {
+        if p.cfg.persistent && p.name.starts_with("wb:") {
+            // write-behind programs never call flush(): grant coordinator rounds only
+            let mut reason = String::new();
+            for _round in 0..3 {
+                sut.quiesce(10_000);
+                sched.grant_tick();
+                let t0 = std::time::Instant::now();
+                while sched.ticks_outstanding() > 0 && t0.elapsed() < Duration::from_secs(10) {
+                    std::thread::sleep(Duration::from_micros(100));
+                }
+                std::thread::sleep(Duration::from_micros(300));
+                sut.quiesce(10_000);
+                let d = sut.store().verif_dump();
+                reason = if !d.buffered.is_empty() {
+                    format!("{} accepted write(s) still only in the write buffer", d.buffered.len())
+                } else if !d.retirements.is_empty() {
+                    format!("{} retirement(s) still queued", d.retirements.len())
+                } else if let Some(r) = d.records.iter().find(|r| r.sector == 0) {
+                    format!("key {} has no durable extent", crate::util::show(&r.key))
+                } else {
+                    String::new()
+                };
+                if reason.is_empty() {
+                    break;
+                }
+            }
+            if !reason.is_empty() {
+                ex.monitor.push(format!("C19: after 3 coordinator rounds without flush(): {reason}"));
+            }
+        } else if p.cfg.persistent {
             // let background retirement settle through the normal path
             let _ = apply_op(sut.store(), &p.tables, &Op::Flush);
         }
